@@ -629,10 +629,9 @@ fn prepare(frag: &str, rng: &mut Rng) -> Vec<Prepared> {
         // an invisible group (twice for "...2"), then parsed like any attribute
         let parsed = if group && spelling.contains("in-list") {
             // followed by another item the value is read by the expression parser, which keeps the group
-            group_value_tokens(&text, 1).and_then(|ts| NestedMeta::parse_meta_list(ts).ok()).and_then(|items| match items.into_iter().next() {
-                Some(NestedMeta::Meta(m)) => Some(m),
-                _ => None,
-            })
+            // (syn's own reading of the list, as a macro author gets it from `parse_args_with`: darling's
+            // list parser stores a grouped literal as the literal it is)
+            group_value_tokens(&text, 1).and_then(|ts| syn::parse::Parser::parse2(Punctuated::<Meta, Token![,]>::parse_terminated, ts).ok()).and_then(|items| items.into_iter().next())
         } else if group {
             group_value_tokens(&text, if spelling.ends_with('2') { 2 } else { 1 }).and_then(|ts| syn::parse2::<Meta>(ts).ok())
         } else {
